@@ -92,3 +92,45 @@ func VerifSelfStr(n int) {
 		vrt.Assert(string(back) == string(b), "round trip")
 	}
 }
+
+var zzSelfTable = [8]uint8{3, 1, 4, 1, 5, 9, 2, 6}
+
+// VerifSelfArrayIndex: symbolic index into a constant array and into a slice
+// holding a symbolic element.
+func VerifSelfArrayIndex() {
+	i := vrt.Int("i")
+	vrt.Assume(0 <= i && i < 8)
+	v := zzSelfTable[i]
+	vrt.Reach("indexed")
+	vrt.Assert(v <= 9 && (i != 5 || v == 9), "table lookup")
+	s := []int{10, 20, vrt.Int("e"), 40}
+	j := vrt.Int("j")
+	vrt.Assume(0 <= j && j < 4)
+	w := s[j]
+	vrt.Assert(j != 2 || w == s[2], "slice element")
+	s[j] = 7
+	vrt.Assert(s[j] == 7, "store through symbolic index")
+}
+
+// VerifSelfRegexp: the regexp model against a hand-written predicate for the
+// reader's decimal-integer pattern.
+func VerifSelfRegexp(n int) {
+	b := vrt.Bytes("b", n)
+	got := intRxs[10].Match(b)
+	// reference: optional sign, one or more digits, optional final dot
+	i := 0
+	if i < n && (b[i] == '-' || b[i] == '+') {
+		i++
+	}
+	digits := 0
+	for i < n && '0' <= b[i] && b[i] <= '9' {
+		i++
+		digits++
+	}
+	if i < n && b[i] == '.' {
+		i++
+	}
+	want := digits > 0 && i == n
+	vrt.Reach("matched")
+	vrt.Assert(got == want, "regexp model disagrees with the reference predicate")
+}
